@@ -221,6 +221,10 @@ class PairSweep(Monitor):
         self.rng = random.Random(seed)
         self.ref = RefusalMonitor()
 
+    def start(self, sess):
+        self.rng = random.Random(sess.cfg.seed ^ 0xC03)
+        return []
+
     def step(self, sess, rec):
         if (rec.i + 1) % self.period:
             return []
